@@ -149,3 +149,131 @@ def sizeBody (S : Schema) (d : StructDef) : List String :=
   ((ownFields d).flatMap fun f => guarded (conditionLine S d f) ("size += " ++ sizeExpr f)) ++ ["return size"]
 
 end SymbolVerif.Codec
+
+namespace SymbolVerif.Codec
+
+/-! ### method body of `deserialize` / `_deserialize`, as text
+
+A port of `StructFormatter.get_deserialize_descriptor`, `generate_deserialize_field`, `generate_condition(prefix_field=False)`
+and the printers' `load` / `advancement_size`. -/
+
+def fixSizeName (n : String) : String := if n == "size" then "size_" else n
+
+def isAbstractStruct (S : Schema) (ty : String) : Bool :=
+  match S.find ty with
+  | some (.struct d) => d.abstract
+  | _ => false
+
+/-- `printer.load(buffer)` -/
+def loadExpr (S : Schema) (f : Field) (buffer : String) : String :=
+  match f.kind with
+  | .int w s | .reserved w s _ | .count w s _ _ | .byteSize w s _ | .sizeOf w s _ | .sizeRef w s _ _ =>
+    "int.from_bytes(buffer[:" ++ toString w ++ "], byteorder='little', signed=" ++ pyBool s ++ ")"
+  | .sizeF w => "int.from_bytes(buffer[:" ++ toString w ++ "], byteorder='little', signed=False)"
+  | .ref ty _ => ty ++ (if isAbstractStruct S ty then "Factory" else "") ++ ".deserialize(" ++ buffer ++ ")"
+  | .barray sizeField => "ArrayHelpers.get_bytes(buffer, " ++ fixSizeName sizeField ++ ")"
+  | .array elem mode align padLast sortKey =>
+    let factory := elem ++ (if isAbstractStruct S elem then "Factory" else "")
+    if align != 0 then
+      let window := match mode with | .sized sf => "buffer[:" ++ sf ++ "]" | _ => "buffer"
+      "ArrayHelpers.read_variable_size_elements(" ++ window ++ ", " ++ factory ++ ", " ++ toString align ++
+        ", skip_last_element_padding=" ++ pyBool (!padLast) ++ ")"
+    else match mode with
+      | .fill => "ArrayHelpers.read_array(buffer, " ++ factory ++ ")"
+      | .count cf | .sized cf =>
+        "ArrayHelpers.read_array_count(buffer, " ++ factory ++ ", " ++ cf ++
+          (match sortKey with | some k => ", " ++ sortAccessor k | none => "") ++ ")"
+
+/-- `printer.advancement_size()` -/
+def advanceExpr (f : Field) : String :=
+  let attr := printerName f.name
+  match f.kind with
+  | .int w _ | .reserved w _ _ | .sizeF w | .count w _ _ _ | .byteSize w _ _ | .sizeOf w _ _ | .sizeRef w _ _ _ => toString w
+  | .ref _ _ => attr ++ ".size"
+  | .barray sizeField => fixSizeName sizeField
+  | .array _ mode align padLast _ =>
+    match mode with
+    | .sized sf => sf
+    | _ =>
+      if align != 0 then "ArrayHelpers.size(" ++ attr ++ ", " ++ toString align ++ ", skip_last_element_padding=" ++ pyBool (!padLast) ++ ")"
+      else "ArrayHelpers.size(" ++ attr ++ ")"
+
+/-- `generate_condition(field)` as used while deserializing: the discriminant is a local variable -/
+def localConditionLine (S : Schema) (d : StructDef) (f : Field) : Option String :=
+  match f.cond with
+  | none => none
+  | some c =>
+    let op := match c.op with | .eq => "==" | .ne => "!=" | .isIn => "in" | .notIn => "not in"
+    some ("if " ++ (condOperands S d c).1 ++ " " ++ op ++ " " ++ c.field ++ ":")
+
+/-- `generate_deserialize_field(field, arg_buffer_name)` -/
+def deserializeFieldLines (S : Schema) (d : StructDef) (sizeMember : Option String) (f : Field) (argBuffer : Option String) : List String :=
+  let attr := printerName f.name
+  let local_ := fixSizeName attr
+  let bufferName := argBuffer.getD "buffer"
+  let limit := match f.kind with | .ref _ (some l) => some l | _ => none
+  let loadBuffer := match limit with | some l => "buffer[:" ++ l ++ "]" | none => bufferName
+  let load := loadExpr S f (if argBuffer.isSome || limit.isSome then loadBuffer else "buffer")
+  let adjust := bufferName ++ " = " ++ bufferName ++ "[" ++ advanceExpr f ++ ":" ++
+    (if sizeMember == some attr then local_ else "") ++ "]"
+  let extra := (match f.kind with
+    | .reserved _ _ value => ["assert " ++ attr ++ " == " ++ toString value ++ ", f'Invalid value of reserved field ({" ++ attr ++ "})'"]
+    | .sizeOf .. => ["# marking sizeof field"]
+    | _ => [])
+  let core := [local_ ++ " = " ++ load, adjust] ++ extra
+  match localConditionLine S d f with
+  | none => core
+  | some c => [attr ++ " = None", c] ++ core.map ("\t" ++ ·)
+
+structure DesState where
+  lines : List String := []
+  processed : List String := []
+  queued : List (String × List Field) := []
+
+/-- the loop of `get_deserialize_descriptor` over the own members (temporary buffer for members placed before their discriminant) -/
+def deserializeLoop (S : Schema) (d : StructDef) (sizeMember : Option String) : List Field → DesState → DesState
+  | [], st => st
+  | f :: rest, st =>
+    let forward := match f.cond with
+      | some c => if st.processed.contains c.field then none else some c.field
+      | none => none
+    match forward with
+    | some cf =>
+      let attr := printerName f.name
+      let st :=
+        if (st.queued.find? (·.1 == cf)).isSome then
+          { st with queued := st.queued.map fun q => if q.1 == cf then (q.1, q.2 ++ [f]) else q }
+        else
+          { st with
+            lines := st.lines ++ ["# deserialize to temporary buffer for further processing",
+              attr ++ "_temporary = " ++ loadExpr S f "buffer",
+              cf ++ "_condition = buffer[:" ++ attr ++ "_temporary.size]",
+              "buffer = buffer[" ++ attr ++ "_temporary.size:]", ""],
+            queued := st.queued ++ [(cf, [f])] }
+      deserializeLoop S d sizeMember rest st
+    | none =>
+      let own := deserializeFieldLines S d sizeMember f none
+      let waiting := ((st.queued.find? (·.1 == f.name)).map (·.2)).getD []
+      let flushed := waiting.flatMap fun q => deserializeFieldLines S d sizeMember q (some (f.name ++ "_condition"))
+      deserializeLoop S d sizeMember rest { st with lines := st.lines ++ own ++ flushed, processed := st.processed ++ [f.name] }
+
+/-- body of `deserialize` (concrete struct) or `_deserialize` (abstract struct) -/
+def deserializeBody (S : Schema) (ty : String) (d : StructDef) : List String :=
+  let own := ownFields d
+  let sizeMember := match d.fields.head? with
+    | some ⟨n, .sizeF _, _⟩ => some (printerName n)
+    | _ => none
+  let hasOwnSize := own.any (·.name == "size")
+  let header :=
+    (if d.abstract then (if hasOwnSize then [] else ["size_ = len(buffer)"])
+     else ["buffer = memoryview(payload)", "instance = " ++ ty ++ "()"]) ++
+    (match d.base with
+     | some b => ["(window_start, window_end) = " ++ b ++ "._deserialize(buffer, instance)", "buffer = buffer[window_start:window_end]"]
+     | none => [])
+  let fields := (deserializeLoop S d sizeMember own {}).lines
+  let carrying := own.filter fun f => f.kind.carries
+  let sets := carrying.map fun f => "instance._" ++ printerName f.name ++ " = " ++ printerName f.name
+  header ++ fields ++ ["", "# pylint: disable=protected-access"] ++ sets ++
+    [if d.abstract then "return (size_ - len(buffer), size_)" else "return instance"]
+
+end SymbolVerif.Codec
